@@ -18,12 +18,15 @@ pub fn eval(sc: &Scenario) -> CaseResult {
     r.violation = first_violation(&out, &["C07", "C01", "C02", "C03", "C04"]);
     let victim = sc.ops.iter().find_map(|o| if let Op::Kill { peer, .. } = o { Some(*peer as usize) } else { None });
     let api = sc.ops.iter().any(|o| matches!(o, Op::Disconnect { .. }));
+    // the survivor's spectator goes silent at the same instant as the victim (both endpoints then time
+    // out in the same poll), or is disconnected explicitly right after the player
+    let spec_dropped = sc.ops.iter().any(|o| matches!(o, Op::LinkDown { from, .. } if *from > 100)) || sc.ops.iter().any(|o| matches!(o, Op::Disconnect { handle, .. } if *handle as usize >= sc.num_players()));
     if r.violation.is_none() {
         r.violation = event_grammar(&out);
     }
     if r.violation.is_none() {
         // timing: exact prediction from poll instants and deliveries; addresses disconnected through the API are skipped
-        r.violation = event_timing(sc, &out, &|_name, _addr| api).map(|(s, m)| (s.replace("C12.", "C07."), m));
+        r.violation = event_timing(sc, &out, &|_name, addr| api || (spec_dropped && addr > 100)).map(|(s, m)| (s.replace("C12.", "C07."), m));
     }
     if r.violation.is_none() {
         r.violation = dropped_player_timeline(&out);
@@ -43,13 +46,14 @@ pub fn eval(sc: &Scenario) -> CaseResult {
                 let (pp, sp) = progress_in_tail(&out, 60);
                 if pp[survivor] < 3 {
                     r.violation = Some(("C07.survivor_stuck".into(), format!("peer{survivor} advanced only {} frames in the last 60 ticks after the drop", pp[survivor])));
-                } else if sp.iter().zip(out.specs.iter()).any(|(d, s)| s.host == survivor && *d < 3 && s.too_far == 0) {
+                } else if !spec_dropped && sp.iter().zip(out.specs.iter()).any(|(d, s)| s.host == survivor && *d < 3 && s.too_far == 0) {
                     r.violation = Some(("C07.spectator_stuck".into(), format!("a spectator of the survivor advanced only {:?} frames in the last 60 ticks", sp)));
                 }
             }
         }
         if api && r.violation.is_none() {
-            let calls: Vec<&(u32, u8, u8, bool)> = so.misuse_results.iter().filter(|m| m.1 == 50).collect();
+            let rh = sc.peers[0].locals;
+            let calls: Vec<&(u32, u8, u8, bool)> = so.misuse_results.iter().filter(|m| m.1 == 50 && m.2 == rh).collect();
             if calls.len() >= 2 && !(calls[0].3 && !calls[1].3) {
                 r.violation = Some(("C07.disconnect_api".into(), format!("disconnect_player results {:?}: expected Ok then Err(InvalidRequest)", calls)));
             }
@@ -77,6 +81,9 @@ pub fn eval(sc: &Scenario) -> CaseResult {
     }
     if api {
         r.classes.push("explicit_disconnect_player");
+    }
+    if spec_dropped {
+        r.classes.push("spectator_dropped_together_with_player");
     }
     if victim.is_some() {
         r.classes.push("peer_death");
@@ -135,6 +142,10 @@ pub fn death_case(i: u64, seed: u64, stride: u64, offsets: &[u32]) -> Scenario {
         sc.ops.push(Op::LinkDown { tick: kt as u32 - off, from: peer_addr(1), to: peer_addr(0) });
     }
     sc.ops.push(Op::Kill { tick: kt as u32, peer: 1 });
+    if !sc.specs.is_empty() && (kt / stride.max(1)) % 2 == 1 {
+        // the survivor's spectator falls silent at the same instant: both endpoints time out together
+        sc.ops.push(Op::LinkDown { tick: kt as u32, from: spec_addr(0), to: peer_addr(0) });
+    }
     sc
 }
 
@@ -146,6 +157,11 @@ pub fn api_case(i: u64, seed: u64) -> Scenario {
     sc.settle = 60;
     let handle = sc.peers[0].locals; // first remote handle as seen from peer 0
     sc.ops.push(Op::Disconnect { tick: t1, peer: 0, handle });
+    if !sc.specs.is_empty() && i % 2 == 1 {
+        // ... and the spectator right after it, before the next advance_frame()
+        let sh = sc.num_players() as u8;
+        sc.ops.push(Op::Disconnect { tick: t1, peer: 0, handle: sh });
+    }
     sc.ops.push(Op::Disconnect { tick: t1 + 30, peer: 0, handle });
     // the other side stops too (it would otherwise time out peer 0, which is fine but irrelevant)
     sc.ops.push(Op::Kill { tick: t1, peer: 1 });
